@@ -110,22 +110,22 @@ PROPS['C08'] = {
 _TB = 'Trusted: gcc 12 + sanitizer runtimes, libutf8proc as NFC/NFKD, the reference model (validated at start-up against vectors from the independent Python spec and the vectors published in tests/tests.c), golden word lists of the pinned commit. '
 MANIFEST_TEXT = {
     'C03': {'technique': 'runtime monitoring: encode output vs executable reference model (ASan/UBSan build)',
-            'text': 'Every polyseed_encode output and stored check value of the run is compared byte-for-byte with an independent model of the published layout; the zero seed, all 164 loadable single-bit seeds and all their pairs are enumerated completely in every language for three coins (a bit-linear packing is determined by them), plus random/boundary seeds and the same seed reached through four different histories. Held-on-what-was-executed, not a proof.',
+            'text': 'Every polyseed_encode output and stored check value of the run is compared byte-for-byte with an independent model of the published layout; the zero seed, all 164 loadable single-bit seeds and all their pairs are enumerated completely in every language for three coins (a bit-linear packing is determined by them), plus random/boundary seeds and the same seed reached through four different histories. Held-on-what-was-executed, not a proof. The NFC monitor clobbers its output buffer before reading its input (a conforming normaliser may), seeds are also encoded under a different enabled-feature mask, and a clang-built stripe repeats the workload.',
             'note': _TB + 'Exhaustive only for the single-bit/pair sub-space.'},
     'C07': {'technique': 'runtime monitoring: exhaustive language x index x position sweep through the API vs golden lists (ASan/UBSan; assertion-enabled build in thorough)',
-            'text': 'All 10 x 2048 x 16 (language, index, position) combinations are driven through polyseed_encode (harvesting the words the library emits) and through both decoders, and compared with the frozen lists; pairwise uniqueness clauses are evaluated on the harvested words and through the API. The finite space named by the property is enumerated completely; the claim is limited to the executions produced.',
+            'text': 'All 10 x 2048 x 16 (language, index, position) combinations are driven through polyseed_encode (harvesting the words the library emits) and through both decoders, and compared with the frozen lists; pairwise uniqueness clauses are evaluated on the harvested words and through the API. The finite space named by the property is enumerated completely; the claim is limited to the executions produced. A clang-built stripe (1/10 of the sweep) repeats both directions.',
             'note': _TB + '"As published" means equal to golden/*.txt extracted from the pinned commit (BIP-39 cannot be fetched offline). The clause "no word is a prefix of another" is checked operationally (DESIGN.md C07).'},
     'C08': {'technique': 'runtime monitoring: decode_explicit on enumerated token variants vs reference matcher (ASan/UBSan)',
-            'text': 'For every word (all of es/fr/en on every run, every language in thorough) every prefix length x accent subset x NFC/NFD form and nine boundary classes are embedded in valid phrases and decoded by the real library; acceptance, status and seed must equal the model matcher. Plus random phrases with an independent variant at each position.',
+            'text': 'For every word (all of es/fr/en on every run, every language in thorough) every prefix length x accent subset x NFC/NFD form and nine boundary classes are embedded in valid phrases and decoded by the real library; acceptance, status and seed must equal the model matcher. Plus random phrases with an independent variant at each position. Further classes: code points at the edges of the accent block (U+02FF, U+0370..U+0380, ...) and tokens of 250-300 letters that start like a word (no letter counter may wrap).',
             'note': _TB + 'Tokens with combining marks outside U+0300-U+036F in es/fr are treated as unspecified (not judged).'},
     'C16': {'technique': 'runtime monitoring: dead-stack scan on driver-owned thread stacks + inspection of blocks at the injected free, 6 optimisation levels/compilers, with positive control',
-            'text': 'Each API function x exit path x language runs on a pre-patterned stack owned by the driver; afterwards the dead stack is searched for secret/password/mask windows, phrase tokens and word-index runs, and every block reaching the injected free must be zero and covered by a logged injected-memzero call. A log-only memzero control run must find residue, otherwise the check is inconclusive (exit 2).',
+            'text': 'Each API function x exit path x language runs on a pre-patterned stack owned by the driver; afterwards the dead stack is searched for secret/password/mask windows, phrase tokens and word-index runs, and every block reaching the injected free must be zero and covered by a logged injected-memzero call. A log-only memzero control run must find residue, otherwise the check is inconclusive (exit 2). The same needles are searched in the static storage of the program and in the thread-local/descriptor area of the monitored thread after it has exited.',
             'note': _TB + 'Registers and memory owned by the dependencies are out of scope; observed for gcc -O0..-O3/-Os and clang -O2 on x86-64.'},
     'C17': {'technique': 'runtime monitoring: exact per-language bound from words harvested through the API + extremal witnesses under ASan (also assertion-enabled build)',
-            'text': 'The worst-case phrase length of every language (sum of per-position maxima over the admissible words, in internal/decoder/output form) is computed from the words the library itself emits and compared with POLYSEED_STR_SIZE of the header being compiled; extremal witness seeds (the 543-byte Korean phrase is reached) are encoded into an exact-size buffer under ASan and fed back to both decoders.',
+            'text': 'The worst-case phrase length of every language (sum of per-position maxima over the admissible words, in internal/decoder/output form) is computed from the words the library itself emits and compared with POLYSEED_STR_SIZE of the header being compiled; extremal witness seeds (the 543-byte Korean phrase is reached) are encoded into an exact-size buffer under ASan and fed back to both decoders. Every fourth witness is encoded while the allocator refuses its next request.',
             'note': _TB + 'The bound is exhaustive over words x positions x languages; witnesses are sampled.'},
     'C19': {'technique': 'runtime monitoring: differential transcripts of -fsigned-char vs -funsigned-char builds (ASan/UBSan) + model comparison',
-            'text': 'One deterministic script (all forms of phrases in all languages, every word of every list, non-ASCII passwords, grammar strings) is executed on both builds; per-case transcript digests must be identical and equal the model where it is authoritative.',
+            'text': 'One deterministic script (all forms of phrases in all languages, every word of every list, non-ASCII passwords, grammar strings) is executed on both builds; per-case transcript digests must be identical and equal the model where it is authoritative. A dedicated section places code points from the edges of the accent block (where sign extension of a char would matter) at the end of and inside Spanish/French tokens.',
             'note': _TB + 'Signedness is varied by compiler flag on x86-64; other ABI differences of ARM/PowerPC are not reproduced.'},
 }
 
@@ -137,7 +137,7 @@ PROPS['C01'] = {
     'require': {'auto.ok': 50000, 'auto.mult_lang': 100, 'ambiguous.constructed': 500, 'roundtrip.how.created': 5000, 'roundtrip.how.crypted': 5000, 'axes.cases': 3000},
 }
 MANIFEST_TEXT['C01'] = {'technique': 'runtime monitoring: encode/decode round trips observed through every seed observer vs reference model (ASan/UBSan, NDEBUG and assertion-enabled builds)',
-    'text': 'Seeds (boundary-biased and random; created, loaded or encrypted) are encoded in every language for boundary and random coins under all 8 enabled-feature masks, compared with the model phrase, and decoded by both decoders; the result is compared through store bytes, birthday, all feature masks, encrypted flag and the full PBKDF2 argument list. Auto-detection must return the same seed and language or MULT_LANG exactly when the model matcher finds a second recognising language; ambiguous phrases are constructed for every overlapping language pair. Every coin, birthday and feature value is visited at least once.',
+    'text': 'Seeds (boundary-biased and random; created, loaded or encrypted) are encoded in every language for boundary and random coins under all 8 enabled-feature masks, compared with the model phrase, and decoded by both decoders; the result is compared through store bytes, birthday, all feature masks, encrypted flag and the full PBKDF2 argument list. Auto-detection must return the same seed and language or MULT_LANG exactly when the model matcher finds a second recognising language; ambiguous phrases are constructed for every overlapping language pair. Every coin, birthday and feature value is visited at least once. A clang-built stripe of the same workload guards against compiler-dependent behaviour.',
     'note': _TB + 'Sampling over 2^150 secrets; no claim beyond the executions produced.'}
 
 PROPS['C02'] = {
@@ -159,7 +159,7 @@ PROPS['C05'] = {
     'require': {'rows.own_coin_ok': 300, 'pairs.rejected_with_checksum': 600000, 'token_diffs.compared': 3000, 'allcoins.own_coin_ok': 20480, 'pairs.failing_allocator_ok': 1500},
 }
 MANIFEST_TEXT['C05'] = {'technique': 'runtime monitoring: full 2047-coin rows through encode/decode_explicit (+ auto-detect sample) with token-wise phrase diff',
-    'text': 'For every language, sampled seeds and 16 coins A (boundary + random) the phrase produced by the library for A is decoded with A (must return the same seed) and with each of the 2047 other coins (must be exactly ERR_CHECKSUM); phrases for different coins must differ in the second token only. Thorough enumerates all 2048x2047 ordered pairs for two English seeds and 256 A-rows for a seed in every other language.',
+    'text': 'For every language, sampled seeds and 16 coins A (boundary + random) the phrase produced by the library for A is decoded with A (must return the same seed) and with each of the 2047 other coins (must be exactly ERR_CHECKSUM); phrases for different coins must differ in the second token only. Thorough enumerates all 2048x2047 ordered pairs for two English seeds and 256 A-rows for a seed in every other language. A third section uses every coin 0..2047 as own coin once per language (the second word runs through the whole list), and wrong/right coins are also decoded with the allocator armed to fail (CHECKSUM must still win).',
     'note': _TB + 'Seeds are sampled; per seed the coin space is enumerated completely.'}
 
 PROPS['C04'] = {
@@ -169,7 +169,7 @@ PROPS['C04'] = {
                 'keygen.path.created': 5000, 'keygen.path.decoded': 5000, 'keygen.keysize.0': 1000, 'keygen.keysize.4096': 1000, 'concurrent.keygens_equal_model': 50000, 'paths.crypt_under_a_different_feature_mask': 5000},
 }
 MANIFEST_TEXT['C04'] = {'technique': 'runtime monitoring: PBKDF2 monitor records all seven arguments of every call; compared with the model; key buffer guarded by ASan red zones / mprotect',
-    'text': 'Every polyseed_keygen call of the workload (seeds reached by create, load, decode from every language, double crypt, stored-encrypted-then-decrypted; boundary and random coins; key sizes 0..4096) must invoke the injected KDF exactly once with the exact password, lengths, salt, 10000 iterations and the caller\'s buffer; the buffer must afterwards hold exactly what the monitor wrote, and in a sub-sample the page is made inaccessible when the monitor returns so that any later access by the library faults. An online map asserts one KDF input per abstract (seed, coin) and one abstract key per KDF input.',
+    'text': 'Every polyseed_keygen call of the workload (seeds reached by create, load, decode from every language, double crypt, stored-encrypted-then-decrypted; boundary and random coins; key sizes 0..4096) must invoke the injected KDF exactly once with the exact password, lengths, salt, 10000 iterations and the caller\'s buffer; the buffer must afterwards hold exactly what the monitor wrote, and in a sub-sample the page is made inaccessible when the monitor returns so that any later access by the library faults. An online map asserts one KDF input per abstract (seed, coin) and one abstract key per KDF input. Crypt/keygen also run while a different user-feature mask is enabled, and a fourth section derives keys from 8 threads at once (yields inside the KDF monitor): every call must still see exactly its own inputs.',
     'note': _TB + 'The KDF itself is a deterministic stand-in (real PBKDF2 is not executed); the property concerns its inputs.'}
 
 PROPS['C06'] = {
@@ -192,7 +192,7 @@ PROPS['C10'] = {
                 'cell.decode_explicit.ERR_UNSUPPORTED': 1000, 'cell.create.ERR_UNSUPPORTED': 500, 'cell.create.OK': 500, 'getters.checked': 5000, 'history.creates_ok': 5000},
 }
 MANIFEST_TEXT['C10'] = {'technique': 'runtime monitoring: exhaustive argument x feature-value x entry-point matrix through the API vs model (ASan/UBSan)',
-    'text': 'Every enabling argument (0..7 and arguments with high bits) x every 5-bit feature value x {create, decode, decode_explicit, load}, directly and after random prior enabling calls, over sampled seeds/languages/coins: status must be UNSUPPORTED exactly when a bit outside the enabled user bits and the encrypted bit is set; enable_features must return popcount(arg&7); getters must return value&q&7; features must survive phrase, storage and crypt round trips; the default mask is observed in fresh processes.',
+    'text': 'Every enabling argument (0..7 and arguments with high bits) x every 5-bit feature value x {create, decode, decode_explicit, load}, directly and after random prior enabling calls, over sampled seeds/languages/coins: status must be UNSUPPORTED exactly when a bit outside the enabled user bits and the encrypted bit is set; enable_features must return popcount(arg&7); getters must return value&q&7; features must survive phrase, storage and crypt round trips; the default mask is observed in fresh processes. Dependencies are re-injected between the enabling call and the use in half of the cells (injection must not touch the mask), and the matrix also runs on the assertion-enabled build.',
     'note': _TB + 'The matrix is enumerated completely; seeds, languages and coins inside each cell are sampled.'}
 
 PROPS['C11'] = {
@@ -226,7 +226,7 @@ PROPS['C09'] = {
                 'multi3.constructed': 500, 'multi3.phrases_recognised_by_3_languages': 200},
 }
 MANIFEST_TEXT['C09'] = {'technique': 'runtime monitoring: relation between the library\'s two decoders on the same input (1 auto + 10 explicit decodes per string), model token count, armed allocator for precedence (ASan/UBSan)',
-    'text': 'For grammar-generated strings (all edit classes, all languages, ambiguous phrases for every overlapping language pair, multi-fault phrases) the automatic decoder is compared with the set of explicit results: NUM_WORDS iff the model token count differs from 16, LANG iff no language recognises all tokens, MULT_LANG iff two or more do (regardless of checksum), else exactly the unique language\'s status, lang_out and seed; with the allocator armed to fail, word-count/language/checksum errors must still win and MEMORY must win over UNSUPPORTED.',
+    'text': 'For grammar-generated strings (all edit classes, all languages, ambiguous phrases for every overlapping language pair, multi-fault phrases) the automatic decoder is compared with the set of explicit results: NUM_WORDS iff the model token count differs from 16, LANG iff no language recognises all tokens, MULT_LANG iff two or more do (regardless of checksum), else exactly the unique language\'s status, lang_out and seed; with the allocator armed to fail, word-count/language/checksum errors must still win and MEMORY must win over UNSUPPORTED. A dedicated section builds phrases recognised by three to six languages at once (shared 4-letter abbreviations).',
     'note': _TB + 'The relation needs no matcher model; the token count and precedence rules come from the model. Inputs whose NFKD form exceeds the public buffer are checked for the relation only.'}
 
 PROPS['C14'] = {
@@ -240,7 +240,7 @@ PROPS['C14'] = {
                 'calls.load.ERR_FORMAT': 1000, 'calls.load.ERR_MEMORY': 1000, 'flood.phrases': 3000, 'flood.nfkd_length.size-1': 100, 'flood.decoded_ok': 500, 'fuzz.execs.fuzz-phrase': 50000, 'fuzz.execs.fuzz-password': 50000, 'fuzz.execs.fuzz-buffer': 50000, 'calls.crypt.len>=4096': 20, 'calls.decode.ERR_MEMORY.len<size-2': 100},
 }
 MANIFEST_TEXT['C14'] = {'technique': 'runtime monitoring: ASan+UBSan (NDEBUG and assertion-enabled builds) on grammar/boundary/raw inputs with exact-size and read-only-before-guard-page buffers, per-case watchdog, allocator ledger; coverage-guided libFuzzer (clang) on three entry points',
-    'text': 'Arbitrary strings (all grammar classes, lengths around POLYSEED_STR_SIZE, 2x, 64 KiB, invalid UTF-8, raw bytes) are fed as phrases to both decoders and as passwords to crypt, and mutated/random buffers to load, on exact-size heap blocks and on a read-only page ending at an inaccessible guard page; any sanitizer report, signal, assertion abort or watchdog expiry is a violation, as is a status outside the documented set, a modified input, a block left allocated by a failed call or a non-canonical seed. libFuzzer explores the same three entry points coverage-guided, seeded with grammar output.',
+    'text': 'Arbitrary strings (all grammar classes, lengths around POLYSEED_STR_SIZE, 2x, 64 KiB, invalid UTF-8, raw bytes) are fed as phrases to both decoders and as passwords to crypt, and mutated/random buffers to load, on exact-size heap blocks and on a read-only page ending at an inaccessible guard page; any sanitizer report, signal, assertion abort or watchdog expiry is a violation, as is a status outside the documented set, a modified input, a block left allocated by a failed call or a non-canonical seed. libFuzzer explores the same three entry points coverage-guided, seeded with grammar output. A dedicated class inflates valid Spanish/French phrases with redundant combining accents so that the decomposed form has exact lengths from size-7 to size+2.',
     'note': _TB + 'A clean sanitizer run is not memory safety (intra-object and non-adjacent overflows can escape); the watchdog is generous (120 s per case) and a firing is re-confirmed in a fresh process before it counts.'}
 
 _LSAN = 'abort_on_error=1:halt_on_error=1:detect_leaks=1:detect_stack_use_after_return=0:handle_abort=0:handle_segv=0:handle_sigbus=0:handle_sigfpe=0:handle_sigill=0:allocator_may_return_null=1'
@@ -253,7 +253,7 @@ PROPS['C15'] = {
                 'matrix.cell.decode.CHECKSUM.fault-1(not reached)': 10, 'matrix.cell.decode.MULT_LANG.fault-1(not reached)': 5, 'matrix.cell.load.FORMAT.fault-1(hit)': 10},
 }
 MANIFEST_TEXT['C15'] = {'technique': 'runtime monitoring with fault injection: allocator ledger + programmable allocation failures (k-th request / bit masks), libc path via link-time interposition, ASan + LeakSanitizer',
-    'text': 'Fault enumeration: every entry point x outcome class x failing-request index (none, 1st ... one past the observed count) is executed on generated inputs; all 2^n fault masks are applied to sampled sequences of up to 8 constructor calls mixed with free/crypt/encode. After every call the ledger must balance (allocated = freed + held by returned seeds), no foreign/double/NULL free may reach the injected free, a failed request must yield ERR_MEMORY and no seed, an armed but unused failure must not change the result, the next call must behave normally, and seeds built in junk-filled memory must equal the model. With alloc/free NULL the libc calls made inside the library are counted and LeakSanitizer/ASan watch the libc path.',
+    'text': 'Fault enumeration: every entry point x outcome class x failing-request index (none, 1st ... one past the observed count) is executed on generated inputs; all 2^n fault masks are applied to sampled sequences of up to 8 constructor calls mixed with free/crypt/encode. After every call the ledger must balance (allocated = freed + held by returned seeds), no foreign/double/NULL free may reach the injected free, a failed request must yield ERR_MEMORY and no seed, an armed but unused failure must not change the result, the next call must behave normally, and seeds built in junk-filled memory must equal the model. With alloc/free NULL the libc calls made inside the library are counted and LeakSanitizer/ASan watch the libc path. Half of the matrix runs with an address-reusing allocator and a stale pointer left in *seed_out, as callers that reuse a variable do.',
     'note': _TB + 'Fault sites are the allocation requests the library makes (one per constructor on this tree); the enumeration adapts if more appear. Inputs per cell are sampled.'}
 
 PROPS['C18'] = {
@@ -265,7 +265,7 @@ PROPS['C18'] = {
                 'inject.last_table.time0.alloc0.free0': 100, 'inject.last_table.time1.alloc1.free1': 100, 'inject.old_seed_freed_after_reinjection': 50},
 }
 MANIFEST_TEXT['C18'] = {'technique': 'runtime monitoring: tagged event logs of two distinguishable stub sets + link-time interposed libc counters scoped to library calls (ASan/UBSan; NDEBUG and assertion-enabled builds)',
-    'text': 'polyseed_create is run with scripted random outputs (all 152 single-bit patterns, all-00, all-FF, random) and clocks: exactly 19 bytes must be requested, the stored secret must equal them bit for bit (top two bits dropped), the birthday must come from the injected clock, and no interposed libc entropy/time function may be reached. All 8 NULL/non-NULL combinations of the optional entries are injected after histories of 1-4 earlier tables (every ordered pair of combinations as the last two), the caller\'s struct is overwritten or unmapped after polyseed_inject returns, and every API function is called: all events must carry the last table\'s tag, and libc malloc/free/time must be used inside the library exactly when the entry is NULL.',
+    'text': 'polyseed_create is run with scripted random outputs (all 152 single-bit patterns, all-00, all-FF, random) and clocks: exactly 19 bytes must be requested, the stored secret must equal them bit for bit (top two bits dropped), the birthday must come from the injected clock, and no interposed libc entropy/time function may be reached. All 8 NULL/non-NULL combinations of the optional entries are injected after histories of 1-4 earlier tables (every ordered pair of combinations as the last two), the caller\'s struct is overwritten or unmapped after polyseed_inject returns, and every API function is called: all events must carry the last table\'s tag, and libc malloc/free/time must be used inside the library exactly when the entry is NULL. A seed created under the previous table is kept alive across the last injection and must be wiped and released through the new table.',
     'note': _TB + 'Only libc entry points listed in the --wrap set are observed (malloc, free, calloc, realloc, time, clock_gettime, gettimeofday, getrandom, getentropy, rand, random, open, fopen, clock).'}
 
 PROPS['C13'] = {
@@ -278,7 +278,7 @@ PROPS['C13'] = {
                 'ops.enable': 5000, 'ops.free': 5000, 'observations': 100000, 'static_storage.checks': 100000, 'walks.with_address_reusing_allocator': 1500, 'ops.non_constructor_with_failing_allocator': 500, 'max.static_storage.ranges_of_library_objects_monitored': 2},
 }
 MANIFEST_TEXT['C13'] = {'technique': 'runtime monitoring: lock-step execution of operation sequences against an executable abstract model (history + model), junk-filling allocator, ASan/UBSan (NDEBUG and assertion-enabled builds)',
-    'text': 'Random walks of 50-200 operations over up to six live seeds (create with arbitrary arguments, load, both decoders on model phrases / other slots\' phrases / grammar strings / wrong coins, crypt, encode, keygen, getters, free, free(NULL), enable_features, re-injection of a second stub set, armed allocation failures) are executed on the library and on the abstract model; every status, output buffer, getter value, key and dependency tag is compared at once and all other live seeds are re-observed (store image, periodically all observers) after every step. All sequences up to length 4 (quick) / 5 (thorough) over a 10-symbol alphabet are enumerated completely.',
+    'text': 'Random walks of 50-200 operations over up to six live seeds (create with arbitrary arguments, load, both decoders on model phrases / other slots\' phrases / grammar strings / wrong coins, crypt, encode, keygen, getters, free, free(NULL), enable_features, re-injection of a second stub set, armed allocation failures) are executed on the library and on the abstract model; every status, output buffer, getter value, key and dependency tag is compared at once and all other live seeds are re-observed (store image, periodically all observers) after every step. All sequences up to length 4 (quick) / 5 (thorough) over a 10-symbol alphabet are enumerated completely. In addition the static and thread-local storage of the library objects (ranges from the link map) is compared around every call: outside polyseed_inject/polyseed_enable_features nothing may change (no hidden state). Walks alternate between a fresh-address and an address-reusing allocator and arm allocation failures before any kind of call; a clang-built stripe repeats the walks.',
     'note': _TB + 'Walks are sampled; the short-sequence space is complete for the reduced alphabet only. Re-injection varies the stub set; NULL optional entries are covered by C18.'}
 
 PROPS['C20'] = {
@@ -288,5 +288,5 @@ PROPS['C20'] = {
                 'rounds.8_threads': 3, 'rounds.16_threads': 3, 'rounds.table.all-entries-injected': 2, 'rounds.table.time-NULL(libc-clock)': 2, 'rounds.table.time+alloc+free-NULL(libc)': 2},
 }
 MANIFEST_TEXT['C20'] = {'technique': 'runtime monitoring: ThreadSanitizer build (library + harness) under multi-threaded scripted workloads with yields injected at the dependency callbacks; serial-vs-concurrent transcript equality',
-    'text': 'After one injection and one feature configuration, 8 and 16 threads execute deterministic scripts of every seed operation on private seeds (all languages), with random sched_yield/spins inside the dependency callbacks (the library\'s own suspension points) and several repetitions with different yield seeds. Any ThreadSanitizer report with a library frame is a violation (deduplicated by entry-point pair); each thread\'s transcript digest must equal that of the same script executed alone. A logical clock (relaxed atomics, so that it adds no synchronisation) measures how many call pairs of different threads really overlapped, per operation pair; a run with too few is inconclusive.',
+    'text': 'After one injection and one feature configuration, 8 and 16 threads execute deterministic scripts of every seed operation on private seeds (all languages), with random sched_yield/spins inside the dependency callbacks (the library\'s own suspension points) and several repetitions with different yield seeds. Any ThreadSanitizer report with a library frame is a violation (deduplicated by entry-point pair); each thread\'s transcript digest must equal that of the same script executed alone. A logical clock (relaxed atomics, so that it adds no synchronisation) measures how many call pairs of different threads really overlapped, per operation pair; a run with too few is inconclusive. Rounds rotate over three dependency tables: all entries injected, libc clock (time NULL), libc clock + malloc + free; libc time() is interposed so that results stay deterministic.',
     'note': _TB + 'TSan is happens-before based and sees only the executions produced; the harness records nothing under locks while threads run, so that it adds no happens-before edges of its own.'}
